@@ -215,6 +215,9 @@ class Contract:
     def post_break(self, c):          # loop-body contracts: obligations on paths leaving by `break`
         return []
 
+    def post_exit(self, c):           # loop-body contracts: obligations when the invariant holds and the condition fails
+        return []
+
     def post_goto(self, c, label):    # loop-body contracts: obligations on paths leaving by `goto label`
         return []
 
@@ -234,9 +237,10 @@ class Frame:
 
 
 class LoopSpec:
-    def __init__(self, invariant=None, unroll=None, modifies_raw=None):
+    def __init__(self, invariant=None, unroll=None, raw=None):
         self.invariant = invariant    # fn(c, st) -> [(label, Bool)]
         self.unroll = unroll          # int: complete unrolling with unwinding assertion
+        self.raw = raw                # fn(c, st) -> [(addr, nbytes)]: the only byte regions the loop may write
 
 
 class Ctx:
@@ -312,6 +316,7 @@ class Exec:
         self.declared_regions = []
         self.collecting_regions = False
         self.fresh_regions = []        # (addr, nbytes) allocated during this execution
+        self.loop_regions = []
         self.literals = {}             # string literals seen: key -> (address, bytes)
         self.literal_hyps = []
         self.access_regions = None     # {'read': [(addr, n)], 'write': [...]} when the contract declares them
@@ -369,7 +374,9 @@ class Exec:
             size, align, fields = ltu.layout(reckey)
             if p not in fields:
                 raise NotSupported("no field %s in %s" % (p, reckey))
-            off, ft, _ = fields[p]
+            off, ft, bits_ = fields[p]
+            if bits_ is not None and i == len(parts) - 1:
+                return base, reckey, (off, bits_[0], bits_[1]), ft
             if i < len(parts) - 1:
                 if ft.kind != 'record':
                     raise NotSupported("dotted path through non-record")
@@ -388,6 +395,8 @@ class Exec:
             raise NotSupported("read_field of record-typed field")
         if ft.kind == 'array':
             return base + BV(off, 64)
+        if isinstance(off, tuple):
+            return self.load(st, Loc('bitfield', ft, base, reckey, off))
         return self.load(st, Loc('field', ft, base, reckey, off))
 
     def write_field(self, st, ptr, typename, fname, val):
@@ -425,6 +434,14 @@ class Exec:
             v = self.load_raw(st, loc.a, t.size)
             if t.kind == 'float' and t.size in (4, 8):
                 return z3.fpBVToFP(v, sort_of(t))
+            return v
+        if loc.kind == 'bitfield':
+            off, shift, width = loc.c
+            h = self.get_heap(st, self.heap_key(loc.b, off, t.bits), t.bits)
+            unit = z3.Select(h, loc.a)
+            v = z3.LShR(unit, BV(shift, t.bits)) & BV((1 << width) - 1, t.bits)
+            if t.signed:
+                v = z3.SignExt(t.bits - width, z3.Extract(width - 1, 0, v))
             return v
         if loc.kind == 'field':
             if t.kind == 'float':
@@ -634,8 +651,15 @@ class Exec:
         for k, h in self.st0.fh.items():
             st.fh.setdefault(k, h)
         init, cond, inc, body = self.loop_parts(loop)
+        line = line_of(loop)
         if cond:
-            st.assume(truth(self.ev(cond, st)))
+            cv = truth(self.ev(cond, st))
+            xst = st.copy()
+            xst.assume(z3.Not(cv))
+            cx = Ctx(self, args, self.st0, xst)
+            for label, g, extra in _norm(self.contract.post_exit(cx)):
+                self.ob('loop-exit', line, label, xst, g, hyps_extra=extra or ())
+            st.assume(cv)
         self.pre_pc = list(st.pc)
         self.base_witness = dict(self.contract.witness(c0))
         acc = self.contract.accessible(c0)
@@ -991,8 +1015,9 @@ class Exec:
         init, _var, cond, inc, body = n['inner']       # ForStmt: 5 slots, {} when absent
         return (init or None), (cond or None), (inc or None), body
 
-    def assigned_in(self, node, acc):
-        """syntactic modifies-set of a loop: local decl ids assigned, and whether memory may change"""
+    def assigned_in(self, node, acc, depth=0):
+        """syntactic modifies-set of a loop: local decl ids assigned; whether byte memory ('raw'), struct
+        fields ('fields'), the error indicator ('err') or everything ('calls') may change"""
         k = node.get('kind')
         if k in ('BinaryOperator', 'CompoundAssignOperator') and (node.get('opcode') == '=' or k == 'CompoundAssignOperator'):
             self._lhs_target(node['inner'][0], acc)
@@ -1001,13 +1026,24 @@ class Exec:
         elif k == 'CallExpr':
             nm, _ind = self.callee_name(node)
             con = self.reg.contracts.get(nm) if nm else None
-            if not (nm in getattr(self.reg, 'pure_models', ()) or (con is not None and con.pure)):
+            if nm in getattr(self.reg, 'pure_models', ()) or (con is not None and con.pure):
+                pass
+            elif nm in getattr(self.reg, 'err_only_models', ()):
+                acc['err'] = True
+            elif nm is not None and (nm in self.reg.inline or (con is not None and con.inline)) and \
+                    nm in self.tu.functions and depth < 6:
+                sub = {'vars': set(), 'raw': False, 'fields': False, 'err': False, 'calls': False, 'mem': False}
+                self.assigned_in(self.tu.functions[nm], sub, depth + 1)
+                for key in ('raw', 'fields', 'err', 'calls'):
+                    acc[key] = acc[key] or sub[key]
+                acc['raw'] = acc['raw'] or sub['mem']
+            else:
                 acc['calls'] = True
         elif k == 'VarDecl':
             acc['vars'].add(node['id'])
         for c in node.get('inner', []) or []:
             if isinstance(c, dict):
-                self.assigned_in(c, acc)
+                self.assigned_in(c, acc, depth)
 
     def _lhs_target(self, lhs, acc):
         while lhs.get('kind') == 'ParenExpr':
@@ -1015,10 +1051,13 @@ class Exec:
         if lhs.get('kind') == 'DeclRefExpr' and lhs['referencedDecl']['kind'] in ('VarDecl', 'ParmVarDecl'):
             did = lhs['referencedDecl']['id']
             if did in self.memlocals or did in self.addr_taken:
-                acc['mem'] = True
+                acc['raw'] = True
             acc['vars'].add(did)
+        elif lhs.get('kind') == 'MemberExpr':
+            acc['fields'] = True
+            acc['raw'] = True         # (a member of a local struct / an array inside a struct lives in bytes)
         else:
-            acc['mem'] = True
+            acc['raw'] = True
 
     def exec_loop(self, n, st):
         ordinal = self.loop_ordinal
@@ -1067,7 +1106,7 @@ class Exec:
         c_entry = Ctx(self, self.args, self.st0, st)
         for label, g, extra in _norm(spec.invariant(c_entry, st)):
             self.ob('loop-entry', line, 'loop%d:%s' % (ordinal, label), st, g, hyps_extra=extra or ())
-        acc = {'vars': set(), 'mem': False, 'calls': False}
+        acc = {'vars': set(), 'mem': False, 'calls': False, 'raw': False, 'fields': False, 'err': False}
         for part in (cond, inc, body):
             if part:
                 self.assigned_in(part, acc)
@@ -1075,12 +1114,24 @@ class Exec:
         for did in acc['vars']:
             if did in h.env:
                 h.env[did] = self.fresh('loop%d_%s' % (ordinal, self.decl_name(did)), h.env[did].sort())
-        if acc['mem'] or acc['calls']:
-            h.raw = self.fresh('loop%d_raw' % ordinal, z3.ArraySort(B64, B8))
+        if acc['raw'] or acc['calls']:
+            newraw = self.fresh('loop%d_raw' % ordinal, z3.ArraySort(B64, B8))
+            regions = spec.raw(Ctx(self, self.args, self.st0, st), st) if (spec.raw and not acc['calls']) else None
+            if regions is not None:
+                # the loop writes only inside the regions its contract names (checked: memory-safety obligations
+                # of the body / the function's frame); every other byte is as at loop entry
+                a = z3.BitVec('a!loop', 64)
+                inside = z3.Or(*[in_range(a, lo, nn if z3.is_bv(nn) else BV(nn, 64)) for lo, nn in regions])
+                h.raw = z3.Lambda([a], z3.If(inside, z3.Select(newraw, a), z3.Select(st.raw, a)))
+                self.loop_regions.append((ordinal, regions))
+            else:
+                h.raw = newraw
+        if acc['fields'] or acc['calls']:
             for key in list(h.fh):
                 h.fh[key] = self.fresh('loop%d_H' % ordinal, h.fh[key].sort())
-            # heaps first touched inside the loop: make sure they exist before the havoc
+        if acc['err'] or acc['calls']:
             h.err = self.fresh('loop%d_err' % ordinal, B64)
+        if acc['calls']:
             for gk in list(h.ghost):
                 h.ghost[gk] = self.fresh('loop%d_g' % ordinal, h.ghost[gk].sort())
         c_h = Ctx(self, self.args, self.st0, h)
@@ -1212,9 +1263,11 @@ class Exec:
             fields = self.tu.layout(rt.name)[2]
             if n['name'] not in fields:
                 raise NotSupported("unknown field " + n['name'])
-            off, ft2, _ = fields[n['name']]
+            off, ft2, bits_ = fields[n['name']]
             if ft2.kind in ('record', 'array'):
                 return Loc('mem', ft2, p + BV(off, 64) if off else p)
+            if bits_ is not None:
+                return Loc('bitfield', ft2, p, rt.name, (off, bits_[0], bits_[1]))
             return Loc('field', ft2, p, rt.name, off)
         if k == 'ArraySubscriptExpr':
             a, b = n['inner']
